@@ -123,7 +123,7 @@ def c17_mean_grp(xx, groups, nodata, dtype="int16"):
     for i in range(len(xx)):
         mem = [xx[j] for j in range(len(xx)) if groups[j] == groups[i] and xx[j] != nodata]
         exp = float(np.float32(sum(mem) / len(mem))) if mem else float(np.float32(nodata))
-        if abs(out[i] - exp) > 1e-6 * max(1.0, abs(exp)):
+        if not (abs(out[i] - exp) <= 1e-6 * max(1.0, abs(exp))):
             bad.append((i, exp, out[i]))
     return {"violates": bool(bad), "out": out, "bad": bad}
 
@@ -377,7 +377,7 @@ def c16_do_mean(kind, dtype=None, pixels=None, zones=None, nz=None, nodata=None,
                         bad.append((t, k, "empty zone must be NaN", float(res[t, k, 0])))
                 else:
                     ref = px[t][sel].astype("float64").mean()
-                    if abs(float(res[t, k, 0]) - ref) > 1e-6 * max(1.0, abs(ref)):
+                    if not np.isfinite(res[t, k, 0]) or abs(float(res[t, k, 0]) - ref) > 1e-6 * max(1.0, abs(ref)):
                         bad.append((t, k, "mean", float(res[t, k, 0]), float(ref)))
         if str(res.dtype) != str(out_dt):
             bad.append(("dtype", str(res.dtype)))
@@ -449,7 +449,7 @@ def c10_mk(kind, data, nodata=None):
     ref = _mk_reference(data)
     bad = []
     for name, g, r in zip(("tau", "p", "slope", "flag"), got, ref):
-        if abs(g - r) > 1e-5 * max(1.0, abs(r)):
+        if not (abs(g - r) <= 1e-5 * max(1.0, abs(r))):
             # a p-value within rounding of 0.05 may flip the flag
             if name == "flag" and abs(ref[1] - 0.05) < 1e-9:
                 continue
@@ -950,16 +950,16 @@ def c06_relations(kind, y=None, w=None, lam=None, c=0, a=0, b=0, kernel=None, re
         z0 = ws2d(y, lam, w)
         scale = max(1.0, float(np.max(np.abs(z0))), abs(c))
         probs = []
-        if np.max(np.abs(ws2d(y + c, lam, w) - (z0 + c))) > 1e-6 * scale:
+        if not (np.max(np.abs(ws2d(y + c, lam, w) - (z0 + c))) <= 1e-6 * scale):
             probs.append("offset")
-        if np.max(np.abs(ws2d(y[::-1].copy(), lam, w[::-1].copy()) - z0[::-1])) > 1e-6 * scale:
+        if not (np.max(np.abs(ws2d(y[::-1].copy(), lam, w[::-1].copy()) - z0[::-1])) <= 1e-6 * scale):
             probs.append("reversal")
         line = a + b * np.arange(n)
         yl = np.where(w > 0, line, y)
-        if np.max(np.abs(ws2d(yl, lam, w) - line)) > 1e-6 * max(1.0, float(np.max(np.abs(line)))):
+        if not (np.max(np.abs(ws2d(yl, lam, w) - line)) <= 1e-6 * max(1.0, float(np.max(np.abs(line))))):
             probs.append("linear")
         ym = np.where(w > 0, y, y + 1234.5)
-        if np.max(np.abs(ws2d(ym, lam, w) - z0)) > 1e-6 * scale:
+        if not (np.max(np.abs(ws2d(ym, lam, w) - z0)) <= 1e-6 * scale):
             probs.append("zero-weight cells")
         return {"violates": bool(probs), "why": probs}
     valid = np.array([v is not None for v in data])
@@ -1510,6 +1510,6 @@ def c17_accessor(which, xx, nodata, window, dtype, nodata_from, groups=None):
             for i in range(n):
                 mem = [vals[j] for j in range(n) if groups[j] == groups[i] and vals[j] != nd]
                 exp = (sum(mem) / len(mem)) if mem else nd
-                if abs(float(res[i]) - exp) > 1e-6 * max(1.0, abs(exp)):
+                if not (abs(float(res[i]) - exp) <= 1e-6 * max(1.0, abs(exp))):
                     return {"violates": True, "why": f"mean_grp dtype={dtype} nodata={nd}: cell {i} got {float(res[i])}, expected {exp}", "xx": vals}
     return {"violates": False}
